@@ -1,7 +1,7 @@
 TARGET = dict(
     rule=("tape-decoded sequence of (width 1-32, value) fields, buffer size around the exact need, "
           "read back by ubits_get and by the block bit-stream reader over a generated segmentation and start bit offset; "
-          "before it is read the block is re-segmented without changing its content (split + append at tape-chosen offsets, an access that moves the segment cache, resize + prepend of the first octets; the reader started at a later field; the block replaced by a splice whose window ends inside a segment; the lead octets deleted for good after an access further in); non-trivial = >=2 fields incl. a 32-bit field or one straddling the 32-bit cache, written into a buffer that is exactly full or too small; "
+          "before it is read the block is re-segmented without changing its content (split + append at tape-chosen offsets, an access that moves the segment cache, resize + prepend of the first octets; the reader started at a later field; the block replaced by a splice whose window ends inside a segment; the lead octets deleted for good after an access further in; a piece cut out and inserted back with ubuf_block_insert); non-trivial = >=2 fields incl. a 32-bit field or one straddling the 32-bit cache, written into a buffer that is exactly full or too small; "
           "distinct by hash of (fields, buffer size, segmentation, bit offset)"),
     assumptions=["independent MSB-first reference packer in the harness", "ASan red zones around exact-size buffers"],
     execs=[dict(name="bits", harness="harness/C18_bits.c", repo=LIBUPIPE, engine=MEMFIX, fuzz=dict(quick=(4, 8), thorough=(8, 60)))],
